@@ -33,7 +33,65 @@
 
 use proc_macro::TokenStream;
 
+extern crate alloc;
+
 mod parse;
+
+/// The `*_embedded!` macros are called by the `macro_rules!` wrappers of the `dashu` meta crate,
+/// which hand over their `$crate` path in a leading bracket group (`[$crate] 123`). The paths of
+/// the expansion then start at that path instead of at `::dashu`, so that they resolve no matter
+/// under which name the meta crate was added as a dependency (`package = "dashu"` renames).
+mod root {
+    use proc_macro2::{Delimiter, Group, Spacing, TokenStream, TokenTree};
+
+    /// Split a leading `[path]` group off the macro input (no literal starts with a group).
+    pub fn take(input: TokenStream) -> (Option<TokenStream>, TokenStream) {
+        let mut iter = input.into_iter();
+        match iter.next() {
+            Some(TokenTree::Group(g)) if g.delimiter() == Delimiter::Bracket => {
+                (Some(g.stream()), iter.collect())
+            }
+            Some(first) => (None, core::iter::once(first).chain(iter).collect()),
+            None => (None, TokenStream::new()),
+        }
+    }
+
+    fn is_colon(tt: &TokenTree, spacing: Spacing) -> bool {
+        matches!(tt, TokenTree::Punct(p) if p.as_char() == ':' && p.spacing() == spacing)
+    }
+
+    /// Replace every global path prefix `::dashu` of the expansion by the given path.
+    pub fn apply(root: &Option<TokenStream>, expansion: TokenStream) -> TokenStream {
+        let root = match root {
+            Some(r) => r,
+            None => return expansion,
+        };
+        let tts: alloc::vec::Vec<TokenTree> = expansion.into_iter().collect();
+        let mut out = alloc::vec::Vec::with_capacity(tts.len());
+        let mut i = 0;
+        while i < tts.len() {
+            let global_dashu = i + 2 < tts.len()
+                && is_colon(&tts[i], Spacing::Joint)
+                && is_colon(&tts[i + 1], Spacing::Alone)
+                && matches!(&tts[i + 2], TokenTree::Ident(id) if id == "dashu");
+            if global_dashu {
+                out.extend(root.clone());
+                i += 3;
+                continue;
+            }
+            match &tts[i] {
+                TokenTree::Group(g) => {
+                    let mut ng = Group::new(g.delimiter(), apply(&Some(root.clone()), g.stream()));
+                    ng.set_span(g.span());
+                    out.push(TokenTree::Group(ng));
+                }
+                tt => out.push(tt.clone()),
+            }
+            i += 1;
+        }
+        out.into_iter().collect()
+    }
+}
 
 #[proc_macro]
 #[doc = include_str!("../docs/ubig.md")]
@@ -51,14 +109,16 @@ pub fn static_ubig(input: TokenStream) -> TokenStream {
 #[doc(hidden)]
 #[proc_macro]
 pub fn ubig_embedded(input: TokenStream) -> TokenStream {
-    parse::int::parse_integer(false, false, true, input.into()).into()
+    let (root, input) = root::take(input.into());
+    root::apply(&root, parse::int::parse_integer(false, false, true, input)).into()
 }
 
 #[doc(hidden)]
 #[proc_macro]
 #[rustversion::since(1.64)]
 pub fn static_ubig_embedded(input: TokenStream) -> TokenStream {
-    parse::int::parse_integer(false, true, true, input.into()).into()
+    let (root, input) = root::take(input.into());
+    root::apply(&root, parse::int::parse_integer(false, true, true, input)).into()
 }
 
 #[proc_macro]
@@ -77,14 +137,16 @@ pub fn static_ibig(input: TokenStream) -> TokenStream {
 #[doc(hidden)]
 #[proc_macro]
 pub fn ibig_embedded(input: TokenStream) -> TokenStream {
-    parse::int::parse_integer(true, false, true, input.into()).into()
+    let (root, input) = root::take(input.into());
+    root::apply(&root, parse::int::parse_integer(true, false, true, input)).into()
 }
 
 #[doc(hidden)]
 #[proc_macro]
 #[rustversion::since(1.64)]
 pub fn static_ibig_embedded(input: TokenStream) -> TokenStream {
-    parse::int::parse_integer(true, true, true, input.into()).into()
+    let (root, input) = root::take(input.into());
+    root::apply(&root, parse::int::parse_integer(true, true, true, input)).into()
 }
 
 #[proc_macro]
@@ -103,14 +165,16 @@ pub fn static_fbig(input: TokenStream) -> TokenStream {
 #[doc(hidden)]
 #[proc_macro]
 pub fn fbig_embedded(input: TokenStream) -> TokenStream {
-    parse::float::parse_binary_float(false, true, input.into()).into()
+    let (root, input) = root::take(input.into());
+    root::apply(&root, parse::float::parse_binary_float(false, true, input)).into()
 }
 
 #[doc(hidden)]
 #[proc_macro]
 #[rustversion::since(1.64)]
 pub fn static_fbig_embedded(input: TokenStream) -> TokenStream {
-    parse::float::parse_binary_float(true, true, input.into()).into()
+    let (root, input) = root::take(input.into());
+    root::apply(&root, parse::float::parse_binary_float(true, true, input)).into()
 }
 
 #[proc_macro]
@@ -129,14 +193,16 @@ pub fn static_dbig(input: TokenStream) -> TokenStream {
 #[doc(hidden)]
 #[proc_macro]
 pub fn dbig_embedded(input: TokenStream) -> TokenStream {
-    parse::float::parse_decimal_float(false, true, input.into()).into()
+    let (root, input) = root::take(input.into());
+    root::apply(&root, parse::float::parse_decimal_float(false, true, input)).into()
 }
 
 #[doc(hidden)]
 #[rustversion::since(1.64)]
 #[proc_macro]
 pub fn static_dbig_embedded(input: TokenStream) -> TokenStream {
-    parse::float::parse_decimal_float(true, true, input.into()).into()
+    let (root, input) = root::take(input.into());
+    root::apply(&root, parse::float::parse_decimal_float(true, true, input)).into()
 }
 
 #[proc_macro]
@@ -155,12 +221,14 @@ pub fn static_rbig(input: TokenStream) -> TokenStream {
 #[doc(hidden)]
 #[proc_macro]
 pub fn rbig_embedded(input: TokenStream) -> TokenStream {
-    parse::ratio::parse_ratio(true, input.into()).into()
+    let (root, input) = root::take(input.into());
+    root::apply(&root, parse::ratio::parse_ratio(true, input)).into()
 }
 
 #[doc(hidden)]
 #[proc_macro]
 #[rustversion::since(1.64)]
 pub fn static_rbig_embedded(input: TokenStream) -> TokenStream {
-    parse::ratio::parse_static_ratio(true, input.into()).into()
+    let (root, input) = root::take(input.into());
+    root::apply(&root, parse::ratio::parse_static_ratio(true, input)).into()
 }
